@@ -17,15 +17,21 @@ from vf.common import PYTHON, REPO, REPO_SRC, VERIF, DEPS, jsonable, load_json
 KNOWN = os.path.join(VERIF, "known_findings.json")
 
 
-def _env():
+def _env(hashseed="0"):
     env = dict(os.environ)
     pp = [REPO_SRC, VERIF]
     if os.path.isdir(DEPS):
         pp.append(DEPS)
     env["PYTHONPATH"] = os.pathsep.join(pp)
-    env["PYTHONHASHSEED"] = "0"
+    env["PYTHONHASHSEED"] = hashseed
     env["PYTHONDONTWRITEBYTECODE"] = "1"
     return env
+
+
+def shard_hashseed(seed, i):
+    """Even shards run with str-hash randomisation off (seed 0), odd shards with a seed derived from (VERIF_SEED, shard):
+    set/dict orders inside the code under test differ between shards but stay reproducible."""
+    return "0" if i % 2 == 0 else str(1 + (seed * 1009 + i * 7919) % 4294967290)
 
 
 def load_known(prop):
@@ -40,7 +46,7 @@ def write_replay(prop, v, seed, tier):
     safe = re.sub(r"[^A-Za-z0-9_.-]+", "_", v["key"])[:80]
     path = os.path.join(VERIF, "replays", f"{prop}-{safe}.json")
     with open(path, "w") as fh:
-        json.dump({"property": prop, "key": v["key"], "what": v["what"], "witness": v["witness"], "seed": seed, "tier": tier}, fh, indent=1)
+        json.dump({"property": prop, "key": v["key"], "what": v["what"], "witness": v["witness"], "seed": seed, "tier": tier, "hashseed": v.get("hashseed", "")}, fh, indent=1)
     return path
 
 
@@ -103,7 +109,7 @@ def main(argv=None):
             log = open(os.path.join(tmpdir, f"s{i}.log"), "w")
             p = subprocess.Popen(
                 [PYTHON, *extra_py, "-m", "vf.worker", prop, args.tier, str(seed), str(i), str(nshards), out],
-                env=_env(), cwd=VERIF, stdout=log, stderr=subprocess.STDOUT,
+                env=_env(shard_hashseed(seed, i)), cwd=VERIF, stdout=log, stderr=subprocess.STDOUT,
             )
             running.append((i, p, out, log, time.time()))
         time.sleep(0.05)
